@@ -25,6 +25,7 @@
 #include "types.h"
 #include "event.h"
 #include "object.h"
+#include "config.h"
 #include "vf.h"
 
 const char *vf_name = "c17_msg";
@@ -1360,7 +1361,171 @@ static void case_property(vf_rng *r)
 	vf_sample("message_property: %s: %d accepted, %d refused arguments; caller sequence on every cut into 2 and 3 fragments (+ empty ones) and PRNG lists", ctx, accepted, refused);
 }
 
-uint64_t vf_cases(void) { return n_exA() + n_exB() + n_prng() + n_getex() + n_getprng() + n_dispatch() + n_property(); }
+
+/* -------------------------------------------------------- message_assign */
+/*
+ * mpt_message_assign() splits a message into a path (a number of
+ * NUL-terminated elements, the number given by the caller or by the message
+ * header) and a value and hands both to the caller's assignment handler.  The
+ * payload is joined in a 1024 byte buffer: payloads that do not fit are
+ * refused.  A case is one message; contiguous and fragmented runs must give the
+ * same return code and show the handler the same path and value bytes, and the
+ * contiguous run must match the flat meaning of the payload.
+ */
+#define AMAX 1700
+typedef struct { int ret, calls; size_t plen, vlen; uint8_t path[AMAX], val[AMAX]; int sep; } ares;
+static ares *a_cur;
+static int a_handler(void *ctx, const MPT_STRUCT(path) *p, const MPT_STRUCT(value) *v)
+{
+	(void) ctx;
+	a_cur->calls++;
+	if (!p || !v) return -100;
+	const struct iovec *vec = v->_addr;
+	a_cur->plen = p->len; a_cur->sep = p->sep;
+	if (p->len <= AMAX) memcpy(a_cur->path, p->base + p->off, p->len);
+	a_cur->vlen = vec ? vec->iov_len : (size_t) -1;
+	if (vec && vec->iov_len <= AMAX && vec->iov_len) memcpy(a_cur->val, vec->iov_base, vec->iov_len);
+	return (int) ((p->len * 7 + a_cur->vlen) & 0xff);
+}
+static void a_run(const uint8_t *data, const size_t *cuts, int k, int all_in_list, int len, ares *res)
+{
+	uint8_t *blk[12];
+	int nv = all_in_list ? k : k - 1;
+	struct iovec *vec = vf_xalloc(nv * sizeof(*vec));
+	MPT_STRUCT(message) msg = MPT_MESSAGE_INIT, snap;
+	size_t pos = 0;
+	for (int i = 0; i < k; i++) {
+		blk[i] = vf_xalloc(cuts[i]);
+		if (cuts[i]) memcpy(blk[i], data + pos, cuts[i]);
+		pos += cuts[i];
+		if (all_in_list) { vec[i].iov_base = blk[i]; vec[i].iov_len = cuts[i]; }
+		else if (i) { vec[i - 1].iov_base = blk[i]; vec[i - 1].iov_len = cuts[i]; }
+	}
+	if (!all_in_list) { msg.base = blk[0]; msg.used = cuts[0]; }
+	msg.cont = nv ? vec : 0;
+	msg.clen = nv;
+	snap = msg;
+	res->calls = 0; res->plen = res->vlen = 0; res->sep = 0;
+	a_cur = res;
+	vf_at("mpt_message_assign"); vf_count("mpt_message_assign", 1);
+	res->ret = mpt_message_assign(&msg, len, a_handler, 0);
+	VF_CHECK(!memcmp(&msg, &snap, sizeof(msg)), "model:message_assign:message-modified", "the (const) message cursor was changed");
+	pos = 0;
+	for (int i = 0; i < k; i++) {
+		VF_CHECK(!cuts[i] || !memcmp(blk[i], data + pos, cuts[i]), "model:message_assign:data-modified", "fragment %d of the message changed", i);
+		pos += cuts[i];
+		vf_xfree(blk[i], cuts[i]);
+	}
+	vf_xfree(vec, nv * sizeof(*vec));
+}
+static uint64_t n_assign(void) { return vf_thorough ? 6000 : 500; }
+static void case_assign(uint64_t idx, vf_rng *r)
+{
+	static uint8_t data[AMAX + 16];
+	static ares ref, cur;
+	static const size_t bigs[] = { 1000, 1010, 1020, 1021, 1022, 1023, 1024, 1025, 1026, 1030, 1050, 1100, 1500 };
+	int header = (int) (idx & 1), nel = (int) ((idx >> 1) % 4), big = (idx >> 3) % 3 == 0;
+	size_t payload, len = 0, hdr = 0;
+	char ctx[200];
+	/* message: [header] element\0 element\0 ... value */
+	if (header) { data[len++] = MPT_MESGTYPE(Command); data[len++] = (uint8_t) nel; hdr = 2; }
+	payload = big ? bigs[(idx >> 5) % 13] : vf_below(r, 40);
+	/* elements: short names; the value takes the rest (may hold NUL bytes itself) */
+	int missing = !big && vf_chance(r, 1, 8);                 /* fewer terminated elements than announced */
+	size_t left = payload;
+	for (int e = 0; e < nel - missing && left; e++) {
+		size_t n = vf_below(r, 6);
+		if (big && e == 0 && vf_chance(r, 1, 3)) n = 300 + vf_below(r, 300);   /* long path element */
+		if (n + 1 > left) n = left - 1;
+		for (size_t i = 0; i < n; i++) data[len++] = (uint8_t) ('a' + vf_below(r, 26));
+		data[len++] = 0;
+		left -= n + 1;
+	}
+	for (size_t i = 0; i < left; i++) data[len++] = (uint8_t) (missing ? 'v' : (vf_chance(r, 1, 12) ? 0 : '0' + vf_below(r, 10)));
+	snprintf(ctx, sizeof(ctx), "%s, %d path elements%s, payload of %zu bytes %s..", header ? "header carries the element count" : "element count given by the caller", nel,
+	         missing ? " (not all terminated)" : "", payload, show(hx1, 60, data + hdr, payload < 24 ? payload : 24));
+	vf_fp_u64(0xa5516); vf_fp_u64(header << 8 | nel); vf_fp(data, len);
+	int arg = header ? -1 : nel;
+
+	a_run(data, &len, 1, 0, arg, &ref);
+	/* flat meaning */
+	{
+		const uint8_t *pl = data + hdr;
+		size_t plen = 0;
+		int bad = 0;
+		for (int e = 0; e < nel; e++) {
+			const uint8_t *z = plen < payload ? memchr(pl + plen, 0, payload - plen) : 0;
+			if (!z) { bad = 1; break; }
+			plen = z - pl + 1;
+		}
+		if (payload >= 1024) {
+			VF_CHECK(ref.ret == MPT_ERROR(MissingBuffer) && !ref.calls, "model:message_assign:contiguous-reference", "%s: contiguous: returned %d, handler called %d times; payload does not fit the 1024 byte buffer", ctx, ref.ret, ref.calls);
+			vf_count("assign:refused-too-long", 1);
+		} else if (bad) {
+			VF_CHECK(ref.ret < 0 && !ref.calls, "model:message_assign:contiguous-reference", "%s: contiguous: returned %d, handler called %d times; path elements are missing", ctx, ref.ret, ref.calls);
+			vf_count("assign:refused-missing-element", 1);
+		} else {
+			VF_CHECK(ref.calls == 1 && ref.plen == plen && ref.vlen == payload - plen && !memcmp(ref.path, pl, plen) && (payload == plen || !memcmp(ref.val, pl + plen, payload - plen)),
+			         "model:message_assign:contiguous-reference", "%s: contiguous: handler called %d times with path of %zu and value of %zu bytes, expected %zu and %zu (or other bytes)", ctx, ref.calls, ref.plen, ref.vlen, plen, payload - plen);
+			VF_CHECK(ref.ret == (int) ((plen * 7 + (payload - plen)) & 0xff), "model:message_assign:contiguous-reference", "%s: contiguous: returned %d, handler returned %d", ctx, ref.ret, (int) ((plen * 7 + (payload - plen)) & 0xff));
+			vf_count("assign:accepted", 1);
+			if (payload >= 1000) vf_count("assign:accepted-near-limit", 1);
+		}
+	}
+	size_t cuts[12];
+	int compared = 0;
+#define A_COMPARE(K, LIST) do { \
+		a_run(data, cuts, (K), (LIST), arg, &cur); \
+		if (cur.ret != ref.ret || cur.calls != ref.calls || cur.plen != ref.plen || cur.vlen != ref.vlen || cur.sep != ref.sep \
+		    || (ref.calls && ref.plen <= AMAX && memcmp(cur.path, ref.path, ref.plen)) || (ref.calls && ref.vlen <= AMAX && ref.vlen && memcmp(cur.val, ref.val, ref.vlen))) { \
+			char cb_[100]; size_t o_ = 0; \
+			for (int j_ = 0; j_ < (K); j_++) o_ += snprintf(cb_ + o_, sizeof(cb_) - o_, "%s%zu", j_ ? "," : "", cuts[j_]); \
+			vf_fail("model:message_assign:fragmented-differs", "%s cut as {%s}%s: returned %d, handler called %d times (path %zu, value %zu bytes); contiguous: returned %d, %d calls (path %zu, value %zu bytes)", \
+			        ctx, cb_, (LIST) ? " (all in list)" : "", cur.ret, cur.calls, cur.plen, cur.vlen, ref.ret, ref.calls, ref.plen, ref.vlen); \
+		} \
+		compared++; \
+	} while (0)
+	if (len <= 42) {
+		for (size_t x = 0; x <= len; x++) {
+			cuts[0] = x; cuts[1] = len - x;
+			A_COMPARE(2, 0); A_COMPARE(2, 1);
+			for (size_t c = x; c <= len; c++) {
+				cuts[0] = x; cuts[1] = c - x; cuts[2] = len - c; A_COMPARE(3, (int) (x & 1));
+				cuts[0] = x; cuts[1] = 0; cuts[2] = c - x; cuts[3] = len - c; A_COMPARE(4, 0);
+				cuts[0] = 0; cuts[1] = x; cuts[2] = c - x; cuts[3] = 0; cuts[4] = len - c; A_COMPARE(5, (int) (c & 1));
+			}
+		}
+	} else {
+		/* cuts at both ends, around the header and around the buffer size */
+		size_t at[] = { 0, 1, 2, 3, hdr + 1, 512, 1022, 1023, 1024, 1025, 1026, len - 2, len - 1, len };
+		for (unsigned i = 0; i < sizeof(at) / sizeof(*at); i++) {
+			if (at[i] > len) continue;
+			cuts[0] = at[i]; cuts[1] = len - at[i];
+			A_COMPARE(2, 0); A_COMPARE(2, 1);
+			cuts[0] = at[i]; cuts[1] = 0; cuts[2] = len - at[i]; A_COMPARE(3, 0);
+			cuts[0] = 0; cuts[1] = at[i]; cuts[2] = len - at[i]; cuts[3] = 0; A_COMPARE(4, 1);
+		}
+	}
+	for (int i = 0; i < 24; i++) {
+		int k = 2 + vf_below(r, 7);
+		size_t rest = len;
+		for (int j = 0; j + 1 < k; j++) {
+			size_t n = vf_chance(r, 1, 4) ? 0 : vf_chance(r, 1, 2) ? 1 + vf_below(r, 4) : vf_below(r, (uint32_t) rest + 1);
+			if (n > rest) n = rest;
+			cuts[j] = n; rest -= n;
+		}
+		cuts[k - 1] = rest;
+		A_COMPARE(k, (int) vf_below(r, 2));
+	}
+#undef A_COMPARE
+	vf_count("monitor:assign-compared", compared);
+	if (payload >= 1000) vf_count("assign:near-limit-compared", compared);
+	if (payload >= 1024) vf_count("assign:too-long-compared", compared);
+	if (payload) vf_nontrivial();
+	if (idx % 23 == 7) vf_sample("message_assign: %s -> returned %d; 2/3-fragment cuts, empty parts, 24 PRNG lists", ctx, ref.ret);
+}
+
+uint64_t vf_cases(void) { return n_exA() + n_exB() + n_prng() + n_getex() + n_getprng() + n_dispatch() + n_property() + n_assign(); }
 
 void vf_case(uint64_t idx, vf_rng *r)
 {
@@ -1376,5 +1541,7 @@ void vf_case(uint64_t idx, vf_rng *r)
 	if (idx < n_getprng()) { case_getprng(r); return; }
 	idx -= n_getprng();
 	if (idx < n_dispatch()) { case_dispatch(idx, r); return; }
-	case_property(r);
+	idx -= n_dispatch();
+	if (idx < n_property()) { case_property(r); return; }
+	case_assign(idx - n_property(), r);
 }
